@@ -273,9 +273,11 @@ func (gq *Schema) Type(name string) Type {
 func (gq *Schema) PossibleTypes(abstractType Abstract) []*Object {
 	switch abstractType := abstractType.(type) {
 	case *Union:
+		verifCountN(VerifSitePossibleTypesEnumerated, len(abstractType.Types()))
 		return abstractType.Types()
 	case *Interface:
 		if impls, ok := gq.implementations[abstractType.Name()]; ok {
+			verifCountN(VerifSitePossibleTypesEnumerated, len(impls))
 			return impls
 		}
 	}
